@@ -139,7 +139,7 @@ def stored_signature(db='default'):
 
 
 def d2(app_label, evolutions, db='default', tracer=None, hinted=False,
-       purge=False):
+       purge=False, extra_apps=()):
     """Evolver + EvolveAppTask with in-memory custom evolutions
     ([{'label':..., 'mutations': [...]}]); the production path including
     prepare() followed by _build_batches().  The current (target) models
@@ -155,6 +155,8 @@ def d2(app_label, evolutions, db='default', tracer=None, hinted=False,
             task = EvolveAppTask(ev, get_app(app_label),
                                  evolutions=evolutions)
             ev.queue_task(task)
+            for other in extra_apps:
+                ev.queue_task(EvolveAppTask(ev, get_app(other)))
             if purge:
                 ev.queue_purge_old_apps()
             ev._prepare_tasks()
